@@ -334,7 +334,11 @@ func oneCase(run *harness.Run, key string, c combo, tmp string, n int) {
 			// natural state: snapshot replayed, DelCheckpoint done, SetCheckpoint never executed
 			cr.tgt.SetHooks(nil, nil, nil)
 			cr.abort = nil
-			if !nat.Absent || cid != p.ID1 || cl != p.B1 || crr < p.B1 || crr > p.L1End || (cro != p.B1 && cro != -1) {
+			if cid == "" && nat.Absent {
+				// the cache kept nothing (its snapshot was dropped when the scope closed and no log byte
+				// had arrived): the reconnect is judged with an empty cache
+				run.Count("natural_caches_that_lost_their_snapshot", 1)
+			} else if !nat.Absent || cid != p.ID1 || cl != p.B1 || crr < p.B1 || crr > p.L1End || (cro != p.B1 && cro != -1) {
 				run.Inconclusive("%s: state after the cut first session unexpected: pos %+v cache %s [%d,%d] rdb@%d", key, nat, short(cid), cl, crr, cro)
 				return
 			}
@@ -366,6 +370,10 @@ func oneCase(run *harness.Run, key string, c combo, tmp string, n int) {
 		}
 		// ---------------- mutate: cache
 		switch {
+		case p.Cache.Natural && cid == "":
+			if p.FreshDisk {
+				cache.reopen(cr.key)
+			}
 		case p.Cache.Natural:
 			pre.CacheID, pre.CacheL, pre.CacheR, pre.CacheHist = cid, cl, crr, p.H1
 			if cro >= 0 {
@@ -427,6 +435,7 @@ func oneCase(run *harness.Run, key string, c combo, tmp string, n int) {
 	if c.TFault != "" {
 		cr.tgt.SetHooks(nil, nil, nil)
 		run.Count("target_fault_error_replies", cr.faultErrors.Load())
+		run.Seen("target_fault_dialogues", fmt.Sprintf("%s#%d: errors=%d end=%s psync=%v", c.Label(), n, cr.faultErrors.Load(), s2.Ended, psyncBrief(s2.Psync)))
 		if cr.faultErrors.Load() == 0 {
 			run.Count("target_fault_scenarios_where_the_fault_never_fired", 1)
 		}
@@ -641,5 +650,13 @@ func listDir(dir string) []string {
 		}
 		return nil
 	})
+	return out
+}
+
+func psyncBrief(evs []fakeredis.PsyncEvent) []string {
+	var out []string
+	for _, e := range evs {
+		out = append(out, fmt.Sprintf("%s %s->%s", short(e.ReplID), e.RawOffset, strings.SplitN(e.Reply, " ", 2)[0]))
+	}
 	return out
 }
